@@ -77,7 +77,13 @@ def gen_history(seed, i):
                 steps.append(copy.deepcopy(r.choice(prev)))
                 repeats += 1
         else:
-            steps.append({"op": "type", "schema": {"type": "array", "items": {"type": r.choice(["string", "integer", "boolean"])}}})
+            steps.append({"op": "type", "schema": r.choice([
+                {"type": "array", "items": {"type": r.choice(["string", "integer", "boolean"])}},
+                {"type": ["string", "null"]}, {"type": ["integer", "null"], "format": "int32"},
+                {"type": "array", "items": [{"type": "string"}, {"type": "integer"}], "minItems": 2, "maxItems": 2},
+                {"type": "array", "items": {"type": "boolean"}, "minItems": 3, "maxItems": 3},
+                {"type": "array", "items": {"type": ["string", "null"]}},
+                {"type": "object", "additionalProperties": {"type": ["integer", "null"]}}])})
     return doc, steps, repeats
 
 
@@ -322,6 +328,14 @@ def run(tier, seed, replay=None):
                                 len(items) != len(snaps[si - 1]["items"]):
                             rep.violation("readd_adds_definitions", "-",
                                           {"step": si, "before": len(snaps[si - 1]["items"]), "after": len(items),
+                                           "schema": step.get("schema"), "name": step.get("name")}, case=case)
+                            bad = True
+                            break
+                        if prev is not None and len(types) != len(prev):
+                            # unnamed types (Option, tuple, array, ...) are entries of the space as well: an identical
+                            # schema must find the ones it created the first time
+                            rep.violation("readd_grows_type_space", "-",
+                                          {"step": si, "before": len(prev), "after": len(types), "first_id": fid, "again_id": rid,
                                            "schema": step.get("schema"), "name": step.get("name")}, case=case)
                             bad = True
                             break
